@@ -32,8 +32,10 @@ def _job(args):
     return prove.prove_case(hid, case, timeout_ms, impl, regions, max_paths)
 
 
-def native_call(argv, timeout=1800):
+def native_call(argv, timeout=7200, seconds=None):
     env = dict(os.environ)
+    if seconds is not None:
+        env["VC_SAMPLE_SECONDS"] = str(seconds)
     env["PYTHONPATH"] = VERIF + os.pathsep + env.get("PYTHONPATH", "")
     env.setdefault("VC_REPO", "/repo")
     p = subprocess.run([NATIVE_PY, "-m", "vc.native"] + argv, capture_output=True, text=True, cwd=VERIF,
@@ -227,6 +229,9 @@ def run_property(prop, tier, seed, impl="py", only=None):
         if hid not in live_harness:
             rep.errors.append("%s: every case is excluded by its own assumptions (vacuous harness)" % hid)
 
+    # wall-clock budgets of one native sampling call (rejection sampling can be slow when assumptions rarely hold)
+    SEC = {"bounded": 1500, "other": 90} if tier != "thorough" else {"bounded": 7200, "other": 900}
+
     def nbound(h):
         b = getattr(h, "bound", None)
         return b[tier] if isinstance(b, dict) and tier in b else T["standin"]
@@ -241,7 +246,7 @@ def run_property(prop, tier, seed, impl="py", only=None):
             r["seconds"] = time.time() - t0
             return job, None, r
         if kind == "bounded":
-            r = native_call(["sample", h.id, str(nbound(h)), str(seed), case_json])
+            r = native_call(["sample", h.id, str(nbound(h)), str(seed), case_json], seconds=SEC["bounded"])
             return job, None, r
         if kind == "replay":
             lab, model, _ = ref
@@ -260,7 +265,7 @@ def run_property(prop, tier, seed, impl="py", only=None):
                 pass
             return job, None, r
         n = T["samples"] if kind == "crosscheck" else T["standin"]
-        r = native_call(["sample", h.id, str(n), str(seed), case_json])
+        r = native_call(["sample", h.id, str(n), str(seed), case_json], seconds=SEC["other"])
         return job, None, r
 
     with ThreadPoolExecutor(max_workers=16) as ex:
@@ -295,7 +300,8 @@ def run_property(prop, tier, seed, impl="py", only=None):
             regs = sorted({k["region"] for k in known if k["harness"] == h.id and k.get("region")})
             if regs:
                 case_json = json.dumps({k: list(v) for k, v in case.items()})
-                r2 = native_call(["sample", h.id, str(nbound(h)), str(seed), case_json, json.dumps(regs)])
+                r2 = native_call(["sample", h.id, str(nbound(h)), str(seed), case_json, json.dumps(regs)],
+                                 seconds=SEC["bounded"])
                 if r2.get("status") != "error" and not r2.get("fails") and r2.get("pass", 0) > 0:
                     for k in [k for k in known if k["harness"] == h.id]:
                         rep.known.append(k)
@@ -364,7 +370,8 @@ def run_property(prop, tier, seed, impl="py", only=None):
                 regs = sorted({k["region"] for k in known if k["harness"] == h.id and k.get("region")})
                 if regs:
                     case_json = json.dumps({k: list(v) for k, v in case.items()})
-                    r2 = native_call(["sample", h.id, str(T["standin"]), str(seed), case_json, json.dumps(regs)])
+                    r2 = native_call(["sample", h.id, str(T["standin"]), str(seed), case_json, json.dumps(regs)],
+                                     seconds=SEC["other"])
                     if r2.get("status") != "error" and not r2.get("fails") and r2.get("pass", 0) > 0:
                         for k in [k for k in known if k["harness"] == h.id and k.get("region")]:
                             rep.known.append(k)
@@ -388,7 +395,7 @@ def run_property(prop, tier, seed, impl="py", only=None):
             # the verifier's counterexample lives in the idealised domain (reals for floats, uninterpreted
             # functions): look for a concrete failing input natively before reporting without one
             case_json = json.dumps({k: list(v) for k, v in case.items()})
-            found = native_call(["sample", h.id, str(T["standin"]), str(seed), case_json])
+            found = native_call(["sample", h.id, str(T["standin"]), str(seed), case_json], seconds=SEC["other"])
             if found.get("fails"):
                 f = found["fails"][0]
                 p2 = write_replay(prop, h.id, cname, lab + "|native-search", f["inputs"],
